@@ -168,7 +168,57 @@ Inductive qf_case :=
     (delivered : list (list N))         (* input/observed: the datagrams in the order they were handed to the peer *)
     (reads : list (list N))             (* observed: peer unreliable Read results, in order *)
     (tx rx : N)                         (* observed: writer transport tx counter, peer transport rx counter *)
-    (htx : list (N * N)).               (* observed: (handle k>0, its own TxBytesCounterValue) *)
+    (htx : list (N * N))                (* observed: (handle k>0, its own TxBytesCounterValue) *)
+| QTimed
+    (P : N)                             (* input: segment payload size (hook) *)
+    (dflt : bool)                       (* input: Config.ReadBufferExpiry left unset (what quic.Dialer does) *)
+    (ex : N)                            (* input: the expiry in ms that is in force: the configured one, or the
+                                           DOCUMENTED default [default_read_buffer_expiry_ms] when dflt *)
+    (msgs : list (list N))              (* input: messages written one after the other with WriteUnreliable *)
+    (sent : list (list N))              (* observed: datagrams given to SendDatagram, in order *)
+    (sched : list (N * N))              (* input: (ms after the first delivery, index into sent), in delivery order,
+                                           times non-decreasing: when each datagram is handed to the peer *)
+    (reads : list (list N)).            (* observed: peer unreliable Read results, in order *)
+
+(* ----- datagram arrival in real time: expiry and the cleaner goroutine ----- *)
+
+(* transport/quic Config: "ReadBufferExpiry ... 0: the default, 10 s" (New fills it in) *)
+Definition default_read_buffer_expiry_ms : N := 10000.
+(* clearReadBufferInterval: RemoveExpired runs every second *)
+Definition cleaner_interval_ms : N := 1000.
+(* margins for the real clock on a loaded machine *)
+Definition slack_ms : N := 500.
+
+(* the history the model is run on: each datagram at its scheduled time, and just before it a
+   cleaner tick - standing for "the cleaner ran at some moment since the previous datagram".
+   That is exact when every gap between two datagrams of one message is sharp: either shorter than the expiry by [slack_ms] (then by
+   Proofs/FramingProofs timely_ticks_harmless no tick in the gap can matter) or longer than
+   expiry + one cleaner interval + slack (then a tick certainly fell after the deadline). *)
+Definition timed_events (sent : list (list N)) (sched : list (N * N)) : list sev :=
+  concat (map (fun ti => [Expire (fst ti); Recv (fst ti) (nth (N.to_nat (snd ti)) sent [])]) sched).
+(* for every delivery but the first of its sequence number: the time since the previous datagram
+   of the SAME sequence number (a buffer's deadline is re-armed by each of its own segments) *)
+Fixpoint seq_gaps (sent : list (list N)) (last : list (N * N)) (sched : list (N * N)) : list N :=
+  match sched with
+  | [] => []
+  | ti :: sched' =>
+      let sq := raw_seq (nth (N.to_nat (snd ti)) sent []) in
+      let rest := seq_gaps sent ((sq, fst ti) :: last) sched' in
+      match find (fun kv => fst kv =? sq) last with
+      | Some kv => (fst ti - snd kv) :: rest
+      | None => rest
+      end
+  end.
+Definition sched_gaps (sent : list (list N)) (sched : list (N * N)) : list N := seq_gaps sent [] sched.
+Definition gap_short (ex g : N) : bool := g + slack_ms <=? ex.
+Definition gap_long (ex g : N) : bool := ex + cleaner_interval_ms + slack_ms + 200 <=? g.
+Definition sharp (ex : N) (sent : list (list N)) (sched : list (N * N)) : bool :=
+  forallb (fun g => gap_short ex g || gap_long ex g) (sched_gaps sent sched).
+Definition timed_outs (ex : N) (sent : list (list N)) (sched : list (N * N)) : list (list N) :=
+  concat (map (fun o => match o with Some sm => [snd sm] | None => [] end)
+              (snd (srun ex [] (timed_events sent sched)))).
+Fixpoint nodup_msgs (l : list (list N)) : bool :=
+  match l with [] => true | x :: l' => negb (existsb (list_beq N N.eqb x) l') && nodup_msgs l' end.
 
 Definition qf_corr (c : qf_case) : bool :=
   match c with
@@ -197,6 +247,12 @@ Definition qf_corr (c : qf_case) : bool :=
           else
             let s := d_write_all P d_init (map snd ops) in
             msgs_eqb (d_out s) sent && (tx =? d_tx s))
+  | QTimed P dflt ex msgs sent sched reads =>
+      (* the default that is in force is the documented one *)
+      (if dflt then ex =? default_read_buffer_expiry_ms else true)
+      && msgs_eqb (d_out (d_write_all P d_init msgs)) sent
+      (* sharp schedules: the model predicts exactly what is handed up, in order *)
+      && (if sharp ex sent sched then msgs_eqb (timed_outs ex sent sched) reads else true)
   end.
 
 (* The property predicate, on the observation only. *)
@@ -228,6 +284,15 @@ Definition qf_ok (c : qf_case) : bool :=
       (* counters *)
       && (tx =? sumlen sent mod two64) && (rx =? sumlen delivered mod two64)
       && forallb (fun kt => snd kt =? sumlen (map snd (filter (fun o => fst o =? fst kt) ops)) mod two64) htx
+  | QTimed P dflt ex msgs sent sched reads =>
+      (* exactly or not at all: whatever the timing, everything handed up is a written message,
+         whole, and none twice (the harness makes the messages pairwise distinct) *)
+      forallb (fun r => existsb (bytes_eqb r) msgs) reads && nodup_msgs reads
+      (* every datagram delivered once and every gap within the expiry (less the slack): each
+         message is handed up - incomplete messages are kept for the documented time *)
+      && (if is_perm sent (map (fun ti => nth (N.to_nat (snd ti)) sent []) sched)
+             && forallb (gap_short ex) (sched_gaps sent sched)
+          then is_perm msgs reads else true)
   end.
 
 Definition qf_judge (c : qf_case) : N :=
